@@ -25,7 +25,7 @@ ASSUMPTIONS = [
     "PYTHONHASHSEED is fixed (0) in both the sequence process and the fresh baseline process",
     "for compiled ACLs only result equality under reuse is required (matching overwrites their scratch 'match' field)",
 ]
-FLOORS = {"quick": {"jobs_in_sequences": 60, "fresh_baselines": 30, "snapshots_compared": 180, "repeated_jobs": 6, "same_vendor_other_hw": 6, "acl_jobs": 6, "rule_mutating_logic_jobs": 4, "nested_dropped_row_jobs": 8, "reference_tracker_jobs": 6, "shared_compiled_acl_jobs": 36, "overlay_provider_jobs": 30, "reference_tracker_jobs_with_a_silent_generator": 6, "collecting_logic_pair_jobs": 12, "collecting_logic_jobs_refused": 6},
+FLOORS = {"quick": {"jobs_in_sequences": 60, "fresh_baselines": 30, "snapshots_compared": 180, "repeated_jobs": 6, "same_vendor_other_hw": 6, "acl_jobs": 6, "rule_mutating_logic_jobs": 4, "nested_dropped_row_jobs": 8, "reference_tracker_jobs": 6, "shared_compiled_acl_jobs": 36, "overlay_provider_jobs": 30, "reference_tracker_jobs_with_a_silent_generator": 6, "collecting_logic_pair_jobs": 12, "collecting_logic_jobs_refused": 6, "jobs_with_a_software_release": 40},
           "thorough": {"jobs_in_sequences": 2500, "fresh_baselines": 400, "snapshots_compared": 7500, "repeated_jobs": 200, "same_vendor_other_hw": 200, "acl_jobs": 200}}
 NPROC = {"quick": 8, "thorough": 16}
 FAMILIES = {"huawei": ["Huawei", "Huawei CE6870", "Huawei NE40E-X8", "Huawei Quidway S5300"], "huawei ce": ["Huawei CE0000", "Huawei NE40E-X8", "Huawei Quidway S5700"],
@@ -110,6 +110,22 @@ ARUBA_PAIRS = [
     [{"kind": "hand", "model": "Aruba AP-505", "old": "ipaddr:10.0.0.2\nnetmask:255.255.255.0\ngatewayip:10.0.0.1\ndnsip:8.8.8.8\ndomainname:example.com\n",
       "new": "ipaddr:10.0.0.9\nnetmask:255.255.255.0\ngatewayip:10.0.0.1\ndnsip:8.8.8.8\ndomainname:example.com\n"},
      {"kind": "hand", "model": "Aruba AP-505", "old": "", "new": "ipaddr:10.2.0.2\nnetmask:255.255.255.0\n"}],
+]
+
+
+# the same model and configurations under two software releases, one after the other: whatever a rule template makes of the release, the
+# second device must get what it gets alone
+SOFT_CONFIGS = [
+    ("Huawei Quidway S5700", "ssh server-source -i Vlanif100\ntelnet server-source -i Vlanif100\nssh ipv6 server-source -a 2001:db8::1\n", "sysname a\n"),
+    ("Huawei CE6870", "ssh server-source -i Vlanif100\ntelnet server-source -i Vlanif100\n", "sysname a\n"),
+    ("Huawei Quidway S5300", "interface GE1/0/1\n trust dscp\n stp edged-port enable\n", "interface GE1/0/1\n trust 8021p\n"),
+    ("Cisco Nexus 3432", "interface Ethernet1/1\n mtu 9000\n", "interface Ethernet1/1\n mtu 9100\n description x\n"),
+    ("Arista DCS-7050", "ip load-sharing trident fields ip\n", "ip load-sharing trident fields mac\n"),
+]
+SOFT_RELEASES = {"Huawei": ["VRP V200R011C10SPC600", "VRP V200R021C00SPC100", "VRP V200R005C20"], "Cisco": ["NX-OS 7.0(3)I7(6)", "NX-OS 9.3(5)"], "Arista": ["EOS 4.20.1F", "EOS 4.28.3M"]}
+SOFT_PAIRS = [
+    [{"kind": "hand", "model": m, "soft": s1, "old": o, "new": n}, {"kind": "hand", "model": m, "soft": s2, "old": o, "new": n}]
+    for m, o, n in SOFT_CONFIGS for s1 in SOFT_RELEASES[m.split()[0]] for s2 in SOFT_RELEASES[m.split()[0]] if s1 != s2
 ]
 
 
@@ -207,6 +223,9 @@ def plan(tier, seed):
             at = rng.randrange(len(seq) + 1)
             seq[at:at] = [dict(pb[0]), dict(pb[1])]
         seq += [dict(pr[0]), dict(pr[1]), dict(pr[2])]
+        for ps in rng.sample(SOFT_PAIRS, 4):
+            at = rng.randrange(len(seq) + 1)
+            seq[at:at] = [dict(ps[0]), dict(ps[1])]
         pu = rng.choice(ARUBA_PAIRS)
         at = rng.randrange(len(seq) + 1)
         seq[at:at] = [dict(pu[0]), dict(pu[1])]
@@ -228,7 +247,7 @@ def materialise(job):
     from annet.annlib.netdev.views.hardware import HardwareView
     from annet import tabparser
     from annet.vendors import registry_connector
-    hw = HardwareView(job["model"], "")
+    hw = HardwareView(job["model"], job.get("soft", ""))
     if job["kind"] == "synth":
         install_leaky_logic()
     if job["kind"] == "corpus":
@@ -419,6 +438,8 @@ def run_seq(spec, acc):
             acc.count("reference_tracker_jobs")
             if any(b is None for a, b in job["refs"]):
                 acc.count("reference_tracker_jobs_with_a_silent_generator")
+        if job.get("soft"):
+            acc.count("jobs_with_a_software_release")
         if job["model"].startswith("Aruba") and job["kind"] == "hand":
             acc.count("collecting_logic_pair_jobs")
             if got.get("error"):
